@@ -139,3 +139,92 @@ def sendableObj (C : Codec) (o : Obj) : Bool := shapeObj o && Dtd.charsOk (encOb
 def sendableParamValue (C : Codec) (p : Param) : Bool := shapeParamValue p && Dtd.charsOk (encParamValue C p)
 
 end Pywbem.Model.Sendable
+
+/-! ### the character condition, from the constituents of the object
+
+`contentOk*`: every string the object holds (names, class origins, reference classes, hosts, namespaces, string /
+char16 / datetime values, keybinding names and values) consists of XML characters, the codec prints reals with XML
+characters, and embedded instances / classes satisfy the same condition and the shape invariants (their encoding
+travels as text).  `Proofs/Lemmas/DtdChars.lean` proves that this implies `charsOk (enc… )`, i.e. the hypothesis
+`sendableObj` follows from `shapeObj` and `contentOkObj`. -/
+
+namespace Pywbem.Model.Sendable
+open Pywbem.Model Pywbem.Model.XmlText
+
+def optOk : Option Str → Bool
+  | none => true
+  | some s => Dtd.strOk s
+
+mutual
+def contentOkAtom (C : Codec) : Atom → Bool
+  | .null => true
+  | .str s | .char16 s | .dt s => Dtd.strOk s
+  | .bool _ | .int _ _ | .pyint _ => true
+  | .real w b => Dtd.strOk (C.fmtReal w b) && Dtd.strOk (C.strFloat b)
+  | .pyfloat b => Dtd.strOk (C.fmtReal true b) && Dtd.strOk (C.strFloat b)
+  | .ref p => contentOkPath C p
+  | .einst i => shapeInst i && contentOkInst C i
+  | .ecls c => shapeCls c && contentOkCls C c
+def contentOkAtoms (C : Codec) : List Atom → Bool
+  | [] => true
+  | a :: as => contentOkAtom C a && contentOkAtoms C as
+def contentOkKey (C : Codec) : Key → Bool
+  | .mk n v => optOk n && contentOkAtom C v
+def contentOkKeys (C : Codec) : List Key → Bool
+  | [] => true
+  | k :: ks => contentOkKey C k && contentOkKeys C ks
+def contentOkPath (C : Codec) : Path → Bool
+  | .inst c h n ks => Dtd.strOk c && optOk h && optOk n && contentOkKeys C ks
+  | .cls c h n => Dtd.strOk c && optOk h && optOk n
+def contentOkVal (C : Codec) : Val → Bool
+  | .null => true
+  | .scalar a => contentOkAtom C a
+  | .array l => contentOkAtoms C l
+def contentOkQual (C : Codec) : Qual → Bool
+  | .mk name ty val _ _ _ _ _ => Dtd.strOk name && Dtd.strOk ty && contentOkVal C val
+def contentOkQuals (C : Codec) : List Qual → Bool
+  | [] => true
+  | q :: qs => contentOkQual C q && contentOkQuals C qs
+def contentOkProp (C : Codec) : Prop_ → Bool
+  | .mk name ty val _ _ refCls origin _ emb quals =>
+    Dtd.strOk name && Dtd.strOk ty && contentOkVal C val && optOk refCls && optOk origin && optOk emb && contentOkQuals C quals
+def contentOkProps (C : Codec) : List Prop_ → Bool
+  | [] => true
+  | p :: ps => contentOkProp C p && contentOkProps C ps
+def contentOkInst (C : Codec) : Inst → Bool
+  | .mk cls path props quals =>
+    Dtd.strOk cls && contentOkOptPath C path && contentOkProps C props && contentOkQuals C quals
+def contentOkOptPath (C : Codec) : Option Path → Bool
+  | none => true
+  | some p => contentOkPath C p
+def contentOkParam (C : Codec) : Param → Bool
+  | .mk name ty refCls _ _ quals val emb =>
+    Dtd.strOk name && Dtd.strOk ty && optOk refCls && contentOkQuals C quals && contentOkVal C val && optOk emb
+def contentOkParams (C : Codec) : List Param → Bool
+  | [] => true
+  | p :: ps => contentOkParam C p && contentOkParams C ps
+def contentOkMeth (C : Codec) : Meth → Bool
+  | .mk name retTy params origin _ quals =>
+    Dtd.strOk name && optOk retTy && contentOkParams C params && optOk origin && contentOkQuals C quals
+def contentOkMeths (C : Codec) : List Meth → Bool
+  | [] => true
+  | m :: ms => contentOkMeth C m && contentOkMeths C ms
+def contentOkCls (C : Codec) : Cls → Bool
+  | .mk name super _ props meths quals =>
+    Dtd.strOk name && optOk super && contentOkProps C props && contentOkMeths C meths && contentOkQuals C quals
+end
+
+def contentOkQualDecl (C : Codec) (q : QualDecl) : Bool :=
+  Dtd.strOk q.name && Dtd.strOk q.ty && contentOkVal C q.val && q.scopes.all (fun p => Dtd.strOk p.1)
+
+def contentOkObj (C : Codec) : Obj → Bool
+  | .path p => contentOkPath C p
+  | .inst i => contentOkInst C i
+  | .cls c => contentOkCls C c
+  | .prop p => contentOkProp C p
+  | .meth m => contentOkMeth C m
+  | .param p => contentOkParam C p
+  | .qual q => contentOkQual C q
+  | .qdecl q => contentOkQualDecl C q
+
+end Pywbem.Model.Sendable
